@@ -251,6 +251,39 @@ func genExec() (string, error) {
 	}
 	emit("applyAndValidateCalls", "ApplyAndValidateBlock: calls in source order", callSeq(aav.Body, []string{"c.CheckAndSetLastCertificate", "c.FSM.ApplyBlock", "lib.ErrFailedTransactions", "compare.SetHash", "bytes.Equal", "lib.ErrUnequalBlockHash"}))
 
+	// ---- CheckAndSetLastCertificate: under which conditions the header's last certificate is written
+	// ---- into the working store (IndexQC) before the block is applied
+	casl := blk.FindFunc("Controller", "CheckAndSetLastCertificate")
+	if casl == nil {
+		return "", fmt.Errorf("CheckAndSetLastCertificate not found")
+	}
+	var indexSites []string
+	var walk func(list []ast.Stmt, conds []string)
+	walk = func(list []ast.Stmt, conds []string) {
+		for _, st := range list {
+			switch v := st.(type) {
+			case *ast.IfStmt:
+				// the statement `if err = X.IndexQC(...); err != nil {..}` itself is the write
+				if v.Init != nil && strings.Contains(g.StmtText(v.Init), "IndexQC(candidate.LastQuorumCertificate)") {
+					indexSites = append(indexSites, strings.Join(conds, " && ")+" => "+g.StmtText(v.Init))
+				}
+				walk(v.Body.List, append(append([]string{}, conds...), g.ExprText(v.Cond)))
+				if eb, ok := v.Else.(*ast.BlockStmt); ok {
+					walk(eb.List, append(append([]string{}, conds...), "!("+g.ExprText(v.Cond)+")"))
+				}
+			case *ast.BlockStmt:
+				walk(v.List, conds)
+			default:
+				if strings.Contains(g.StmtText(st), "IndexQC(candidate.LastQuorumCertificate)") {
+					indexSites = append(indexSites, strings.Join(conds, " && ")+" => "+g.StmtText(st))
+				}
+			}
+		}
+	}
+	walk(casl.Body.List, nil)
+	emit("lastCertIndexSites", "CheckAndSetLastCertificate: every write of the candidate header's LastQuorumCertificate into the working store, with the conjunction of the enclosing if-conditions (conditions => statement)", indexSites)
+	emit("applyAndValidateFirst", "ApplyAndValidateBlock: first call (the last-certificate check-and-set precedes ApplyBlock)", callSeq(blk.FindFunc("Controller", "ApplyAndValidateBlock").Body, []string{"c.CheckAndSetLastCertificate", "c.FSM.ApplyBlock"}))
+
 	// ---- bft: every write of the cached block result ----
 	var writes []string
 	bftFiles, _ := filepath.Glob(filepath.Join(*repo, "bft", "*.go"))
